@@ -299,7 +299,8 @@ def run_one(seed, tape, opts):
 
     def issue_read(d):
         rx = conns[d][1]
-        rec = {"state": "pending", "alive_at_issue": rx_end[d].alive}
+        rec = {"state": "pending", "alive_at_issue": rx_end[d].alive,
+               "queued_at_issue": len(rx._inbound_records)}
         st[d]["reads"].append(rec)
         dfr = rx.receive_record()
 
@@ -310,6 +311,14 @@ def run_one(seed, tape, opts):
         def bad(f):
             rec["state"] = "failed"
             st[d]["read_fail"] += 1
+            if rec["queued_at_issue"]:
+                # a record that arrived whole and authenticated before the
+                # connection ended is still obtained by the next read
+                V("C06.queued_record_not_delivered", "the receiver obtains "
+                  "exactly the records passed to send_record (a late or slow "
+                  "reader included)", "%s: receive_record() failed with %s "
+                  "although %d record(s) were already queued" %
+                  (d, f.type.__name__, rec["queued_at_issue"]))
         dfr.addCallbacks(ok, bad)
 
     def attach(d):
@@ -342,10 +351,37 @@ def run_one(seed, tape, opts):
                 s["cdef_state"] = "failed"
             dfr.addCallbacks(ok, bad)
 
+    lazy = {d: (not opts.get("fixed")) and tape.choose(4, "lazy") == 0
+            for d in ("s2r", "r2s")}
+    orderly = [(not opts.get("fixed")) and tape.choose(3, "orderly") == 0]
+
+    def all_sent():
+        return all(st[x]["sent"] >= len(recs[x]) for x in ("s2r", "r2s"))
+
     def app_events():
         evs = []
+        if orderly[0] and all_sent() and cs.transport.connected and \
+                not cs.transport.disconnecting and \
+                len(delivered("r2s")) + len(cs._inbound_records) >= \
+                len(recs["r2s"]):
+            # the sending application is done and closes normally: everything
+            # written is flushed before the FIN
+            def close_now():
+                orderly[0] = False
+                sim.ev("orderly_close")
+                sim.note("probe.orderly_close_after_last_record")
+                cs.transport.loseConnection()
+            evs.append(("close", close_now))
         for d in ("s2r", "r2s"):
             s = st[d]
+            if lazy[d] and s["mode"] == "read" and rx_end[d].alive and \
+                    not all_sent():
+                # a late reader: first read only when the peer is done
+                if s["sent"] < len(recs[d]) and \
+                        conns[d][0].transport.connected and \
+                        not conns[d][0].transport.disconnecting:
+                    evs.append(("send:" + d, lambda d=d: send_next(d)))
+                continue
             if s["sent"] < len(recs[d]) and conns[d][0].transport.connected \
                     and not conns[d][0].transport.disconnecting:
                 evs.append(("send:" + d, lambda d=d: send_next(d)))
